@@ -42,11 +42,12 @@ WithoutStash(v, k) == [v EXCEPT !.stash = [x \in (DOMAIN v.stash) \ {k} |-> v.st
 
 \* ---------------------------------------------------------------- configuration
 \* cfg: [role, bs, resetOnLogon, resetOnLogout, resetOnDisconnect, refreshOnLogon, chunk,
-\*       persist, checkLatency, hbOverride, hbCfg, resetSeqTime]
+\*       persist, checkLatency, hbOverride, hbCfg, resetSeqTime, schedule]
 \* bs is the BeginString as a number: 40 41 42 43 44, 50 for FIXT.1.1 (string order of the code)
 DefaultCfg == [role |-> "acc", bs |-> 42, resetOnLogon |-> FALSE, resetOnLogout |-> FALSE,
                resetOnDisconnect |-> FALSE, refreshOnLogon |-> FALSE, chunk |-> 0, persist |-> TRUE,
-               checkLatency |-> TRUE, hbOverride |-> FALSE, hbCfg |-> 30, resetSeqTime |-> FALSE]
+               checkLatency |-> TRUE, hbOverride |-> FALSE, hbCfg |-> 30, resetSeqTime |-> FALSE,
+               schedule |-> FALSE]
 
 InfEnd(cfg) == IF cfg.bs < 42 THEN 999999 ELSE 0
 
@@ -440,8 +441,25 @@ Drain(s) ==
     IF s.inbuf = <<>> THEN s
     ELSE Drain(IncomingParsed([s EXCEPT !.inbuf = Tail(@)], Head(s.inbuf)))
 
+\* ---------------------------------------------------------------- session schedule (session_state.go CheckSessionTime)
+\* Incoming, Timeout and SendAppMessages start with CheckSessionTime(time.Now()); the driver keeps the real
+\* clock inside the window in which the store was created, so for them the check only ends a
+\* notSessionTime state.  The ticker's check is the TimeTick event, with an instant of class
+\*   "same" the window in which the store was created, "out" no window, "next" a later window.
+Wake(s) == IF s.cur.n = "notSessionTime" THEN SetState(s, Latent) ELSE s
+
+\* State.ShutdownNow: logged-on states send a Logout (no text), the others do nothing
+ShutdownNow(s) == IF IsLoggedOn(s.cur) THEN SendLogout(s, FALSE) ELSE s
+
+OnTimeTick(s0, w) ==
+    LET s == ClearLogs(s0) IN
+    IF ~s.cfg.schedule THEN s
+    ELSE CASE w = "out" -> SetState(ShutdownNow(s), NotTime)
+           [] w = "next" -> LET s1 == Wake(s) IN SetState(DropAndReset(ShutdownNow(s1)), Latent)     \* "Session reset"
+           [] OTHER -> Wake(s)
+
 \* ---------------------------------------------------------------- entry points (one per run-loop case)
-OnIncoming(s0, m) == IncomingParsed(ClearLogs(s0), m)
+OnIncoming(s0, m) == IncomingParsed(Wake(ClearLogs(s0)), m)
 
 \* a frame placed in the inbound channel and not yet consumed
 OnPreload(s0, m) == [ClearLogs(s0) EXCEPT !.inbuf = Append(@, m)]
@@ -463,7 +481,7 @@ StateTimeout(s, ev) ==
       [] v.n = "logout" -> IF ev = "LogoutTimeout" THEN Ret(s, Latent) ELSE Ret(s, v)
       [] OTHER -> Ret(s, v)
 
-OnTimeout(s0, ev) == LET h == StateTimeout(ClearLogs(s0), ev) IN SetState(h.s, h.nx)
+OnTimeout(s0, ev) == LET h == StateTimeout(Wake(ClearLogs(s0)), ev) IN SetState(h.s, h.nx)
 
 \* session.go onAdmin(connect) + stateMachine.Connect
 ShouldSendReset(s) ==
@@ -491,7 +509,7 @@ OnStop(s0) == LET s == [ClearLogs(s0) EXCEPT !.pstop = TRUE]
 OnDisconnected(s0) == LET s == ClearLogs(s0) IN IF IsConnected(s.cur) THEN SetState(s, Latent) ELSE s
 
 \* SendAppMessages
-OnFlush(s0) == LET s == ClearLogs(s0) IN IF IsLoggedOn(s.cur) THEN Flush(s) ELSE [s EXCEPT !.q = <<>>]
+OnFlush(s0) == LET s == Wake(ClearLogs(s0)) IN IF IsLoggedOn(s.cur) THEN Flush(s) ELSE [s EXCEPT !.q = <<>>]
 
 \* SendToTarget -> queueForSend; a = [x body id, dns refuse now, ref refuse on resend]
 OnSend(s0, a) ==
@@ -499,7 +517,7 @@ OnSend(s0, a) ==
 
 \* the run loop receives the oldest buffered frame
 OnConsume(s0) ==
-    LET s == ClearLogs(s0) IN
+    LET s == Wake(ClearLogs(s0)) IN
     IF s.inbuf = <<>> THEN s ELSE IncomingParsed([s EXCEPT !.inbuf = Tail(@)], Head(s.inbuf))
 
 \* session_state.go CheckResetTime when the configured ResetSeqTime has been crossed since the last
@@ -523,6 +541,7 @@ Step(s, ev) ==
       [] ev.k = "Flush" -> OnFlush(s)
       [] ev.k = "Send" -> OnSend(s, ev.a)
       [] ev.k = "ResetTick" -> OnResetTick(s)
+      [] ev.k = "TimeTick" -> OnTimeTick(s, ev.e)
 
 \* what the driver reads back from the real session after every step
 StateName(v) == IF v.p THEN "pending(" \o v.n \o ")" ELSE v.n
